@@ -32,6 +32,11 @@ REQUESTS = {
     "V6": (PS, {"correct_force_slope": {"region": "all",
                                         "strategy": "drift"}}, False),
     "V7": (PM, {}, False),
+    # smoothing while 'tip position' is still the array that
+    # compute_tip_position created (no offset correction in between)
+    "V8": (["compute_tip_position", "smooth_height"], {}, False),
+    "V9": (["compute_tip_position", "correct_split_approach_retract",
+            "smooth_height"], {}, False),
     "I1": (["compute_tip_position", "nope"], {}, True),
     "I2": (["correct_tip_offset"], {}, True),
     "I3": (P1, {"correct_tip_offset": {"method": "bogus"}}, True),
@@ -103,6 +108,11 @@ class Driver(hist.Driver):
                                    "preprocessing_options": options}, rid])
         self.ops += [["F", {}, None], ["F", {"weight_cp": 0}, None],
                      ["R", "Decision Tree", "zef18", None, None]]
+        # options handed to fit_model without the step list: they apply to
+        # the current pipeline (rid "O:<rid>" = current steps + these options)
+        for rid in ("V3", "V4"):
+            self.ops.append(["F", {"preprocessing_options":
+                                   REQUESTS[rid][1]}, "O:" + rid])
         # a client that keeps ONE steps list / options dictionary and edits
         # it in place between requests (nested per-step dictionaries too)
         for rid in self.shared_rids:
@@ -152,6 +162,7 @@ class Driver(hist.Driver):
                            cn.norm(fp.get("preprocessing_options",
                                           "<none>"))),
                 "has_details": bool(idnt._preprocessing_details),
+                "steps_now": list(idnt.preprocessing or []),
                 "owned": self.owned(idnt)}
 
     def owned(self, idnt):
@@ -194,7 +205,11 @@ class Driver(hist.Driver):
                 viol("foreign-column-changed", "a fit/rating changed "
                      "preprocessing-owned columns")
             return out
-        steps, options, _ = REQUESTS[rid]
+        if rid.startswith("O:"):
+            # options only: they go with the pipeline the curve has now
+            steps, options = list(pre["steps_now"]), REQUESTS[rid[2:]][1]
+        else:
+            steps, options, _ = REQUESTS[rid]
         must_reject = ref_rejected(steps, options)
         req = (cn.norm(steps), cn.norm(options))
         fp = idnt.fit_properties
@@ -276,7 +291,7 @@ class Recorded(Driver):
 
     def __init__(self):
         super().__init__()
-        keep = ("V2", "V3", "V5", "V7", "I1", "I3", "I5")
+        keep = ("V2", "V3", "V5", "V7", "V8", "I1", "I3", "I5")
         self.ops = [o for o in self.ops
                     if (o[0] == "P" and o[4] in keep and not o[3])
                     or (o[0] == "F" and (o[2] in keep or o[2] is None)
